@@ -1,11 +1,13 @@
 package main
 
 import (
+	"encoding/json"
 	"fmt"
+	"os"
 	"strings"
 )
 
-// The 40 identifier patterns of the design: 25 Go keywords, 4 predeclared identifiers,
+// The 40 identifier patterns of the design (plus three added later): 25 Go keywords, 4 predeclared identifiers,
 // 3 initialism spellings, leading / trailing / embedded underscores, and the spellings that
 // normalise to the same Go identifier (X_y / XY / x__y, A_B / AB / a_b, _x / x_).
 var goKeywords = []string{
@@ -20,6 +22,7 @@ var otherPatterns = []string{
 	"_x", "x_", "x__y", // leading, trailing, embedded underscores
 	"X_y", "XY", // type-name style collision
 	"A_B", "AB", "a_b", // enum-value style collision
+	"_Hidden", "idCard", "URLThing", // leading underscore before a capital, initialism prefixes (added after the design's 40)
 }
 
 func allPatterns() []string {
@@ -29,7 +32,7 @@ func allPatterns() []string {
 // Positions a name can take. The design's "type name" position is split by type kind because
 // every kind goes through different templates.
 var memberPositions = []string{"field", "arg", "inputfield", "enumvalue", "dirarg"}
-var typePositions = []string{"type-object", "type-input", "type-enum", "type-interface", "type-union", "type-scalar"}
+var typePositions = []string{"type-object-resolver", "type-object", "type-input", "type-enum", "type-interface", "type-union", "type-scalar"}
 
 // Atom is one naming obligation: a single pattern at a position, or (two names) a pair of
 // names in the same scope that normalise to the same Go identifier (declaration order matters
@@ -161,6 +164,13 @@ func namingSchemaSlots(atoms []Atom) (string, []Slot) {
 		fmt.Fprintf(&b, "type %s { v: String w(a: Int): %s }\n", nm, nm)
 		q = append(q, fmt.Sprintf("q%d: %s", k, nm), fmt.Sprintf("ql%d: [%s!]", k, nm))
 	}
+	// an object type that HAS a resolver field: its name also feeds the <Name>Resolver interface,
+	// the ResolverRoot method and the resolver / stub implementation structs
+	for _, nm := range names(byPos["type-object-resolver"]) {
+		k := slot("type-object-resolver", nm)
+		fmt.Fprintf(&b, "type %s { v: String w(a: Int): %s r(a: Int): String @goField(forceResolver: true) }\n", nm, nm)
+		q = append(q, fmt.Sprintf("q%d: %s", k, nm), fmt.Sprintf("ql%d: [%s!]", k, nm))
+	}
 	for _, nm := range names(byPos["type-input"]) {
 		k := slot("type-input", nm)
 		fmt.Fprintf(&b, "input %s { v: String w: %s }\n", nm, nm)
@@ -268,10 +278,57 @@ type NamingProject struct {
 //     pairs per type kind and per round (both orders are the same schema for types: gqlgen
 //     sorts types by name), restricted to the kinds that get a generated Go type.
 func namingProjects(full bool) []NamingProject {
+	return quarantine(packedNamingProjects(full))
+}
+
+// knownAtomPrefixes: signatures (without the stage) of naming atoms that are listed as known
+// findings. Such an atom is generated as a project of its own from the start instead of making
+// its whole packed project fail and be split on every run; the obligations stay the same.
+var knownAtomPrefixes = func() map[string]bool {
+	out := map[string]bool{}
+	b, err := os.ReadFile("/verif/known_findings/C17.json")
+	if err != nil {
+		return out
+	}
+	var fs []struct{ Signature, Status string }
+	if json.Unmarshal(b, &fs) != nil {
+		return out
+	}
+	for _, f := range fs {
+		if f.Status == "known" && (strings.HasPrefix(f.Signature, "naming:") || strings.HasPrefix(f.Signature, "naming-pair:")) {
+			if i := strings.LastIndex(f.Signature, ":"); i > 0 {
+				out[f.Signature[:i]] = true
+			}
+		}
+	}
+	return out
+}()
+
+func quarantine(ps []NamingProject) []NamingProject {
+	var out, single []NamingProject
+	seen := map[string]bool{}
+	for _, p := range ps {
+		var rest []Atom
+		for _, a := range p.Atoms {
+			if !knownAtomPrefixes[a.Sig()] {
+				rest = append(rest, a)
+			} else if !seen[a.Sig()] {
+				seen[a.Sig()] = true
+				single = append(single, NamingProject{"naming-known-" + a.Sig(), []Atom{a}})
+			}
+		}
+		if len(rest) > 0 {
+			out = append(out, NamingProject{p.Name, rest})
+		}
+	}
+	return append(out, single...)
+}
+
+func packedNamingProjects(full bool) []NamingProject {
 	var out []NamingProject
 	for gi, g := range patternGroups() {
 		var atoms []Atom
-		for _, pos := range append([]string{"type-object"}, memberPositions...) {
+		for _, pos := range append([]string{"type-object-resolver"}, memberPositions...) {
 			for _, p := range g {
 				atoms = append(atoms, Atom{pos, []string{p}})
 			}
